@@ -142,6 +142,8 @@ pub fn family(seed: u64, http: bool, nu: bool) -> Family {
         json!({"n": u64::MAX}),
         json!({"n": i64::MIN}),
         json!({"big": 9007199254740993i64, "max": i64::MAX, "neg": -9007199254740993i64}),
+        // floats without a fractional part stay floats (2^63 as a float is not i64::MAX)
+        json!({"w": 1.0, "h": -3.0, "e": 1e15, "p": 9223372036854775808.0, "q": 2.5}),
         json!({"f": 1e300}),
         json!({"s": "esc \" \\ \n \u{1} \u{10ffff} é"}),
         json!([1, "two", null, true]),
@@ -262,6 +264,8 @@ pub struct Run {
     pub cli: bool,
     /// the behaviour was cut short because the command line tool printed nothing after a successful call
     pub lost: bool,
+    /// id of the newest frame appended (not imported) so far
+    pub last_appended: Option<String>,
     /// every stored frame seen so far, as last seen
     pub frame_by_id: HashMap<String, Value>,
     /// operations go through nu scripts using the commands xs gives to scripts (XSV_NU set); no API server
@@ -303,6 +307,7 @@ impl Run {
             cli: http && std::env::var("XSV_CLI").map(|s| !s.is_empty()).unwrap_or(false),
             lost: false,
             frame_by_id: HashMap::new(),
+            last_appended: None,
             nu: std::env::var("XSV_NU").is_ok(),
             tok_hash: HashMap::new(),
         };
@@ -519,6 +524,7 @@ impl Run {
                 }
             }
             let id = f["id"].as_str().unwrap().to_string();
+            self.last_appended = Some(id.clone());
             self.appended.entry(t).or_default().push(Some(id.clone()));
             if ttl["k"] == "eph" && topic != "xs.context" {
                 self.eph_ids.push(id.clone());
@@ -990,6 +996,19 @@ impl Run {
         } else {
             0
         };
+        // resume after an id: the newest frame this store has appended (what a follower that saw everything holds), or any
+        // id seen so far - whatever the store holds above it in the context is history to replay
+        let last: Option<String> = if hist_route && self.rng.gen_bool(0.6) {
+            if self.rng.gen_bool(0.5) && self.last_appended.is_some() {
+                self.last_appended.clone()
+            } else if !self.known_ids.is_empty() {
+                Some(self.known_ids[self.rng.gen_range(0..self.known_ids.len())].clone())
+            } else {
+                None
+            }
+        } else {
+            None
+        };
         let topic = ["tA", "tAB", "tB"][self.rng.gen_range(0..3)];
         let topic_s = self.fam.topics.get(topic).cloned().unwrap();
         let target = if head {
@@ -998,7 +1017,10 @@ impl Run {
             // history + live with a heartbeat and a limit: pulses are not counted, the stream ends after `lim`
             format!("/?follow=3&limit={lim}&context-id={ctx}")
         } else if hist_route {
-            format!("/?follow=true&context-id={ctx}")
+            match &last {
+                Some(l) => format!("/?follow=true&context-id={ctx}&last-id={l}"),
+                None => format!("/?follow=true&context-id={ctx}"),
+            }
         } else {
             format!("/?follow=true&tail=true&context-id={ctx}")
         };
@@ -1007,6 +1029,8 @@ impl Run {
             let d = self.dir.to_string_lossy().to_string();
             open["cli_args"] = if lim > 0 {
                 json!(["cat", d, "--pulse", "3", "--limit", lim.to_string(), "--context", ctx])
+            } else if let Some(l) = &last {
+                json!(["cat", d, "--follow", "-c", ctx, "--last-id", l])
             } else {
                 json!(["cat", d, "--follow", "-c", ctx])
             };
@@ -1043,6 +1067,11 @@ impl Run {
         let in_scope: Vec<&Value> = appended
             .iter()
             .filter(|f| f["ctx"] == idref(&ctx) && (!head || f["topic"] == json!(topic)))
+            // (through the command line an early append may be history, and history at or below the start position is not replayed)
+            .filter(|f| match (&last, self.cli) {
+                (Some(l), true) => f["id"].as_str().and_then(|i| i.strip_prefix("ID:")).map(|i| i > l.as_str()).unwrap_or(true),
+                _ => true,
+            })
             .collect();
         let (want_ids, want_count): (Vec<String>, u64) = if lim > 0 {
             (vec![], lim.min(hist + in_scope.len() as u64))
@@ -1065,7 +1094,11 @@ impl Run {
             .map(|f| self.abs_frame(f))
             .collect();
         let route = if head { "head" } else if lim > 0 { "catlim" } else if hist_route { "cathist" } else { "cat" };
+        if let Some(l) = &last {
+            self.note_id(l);
+        }
         self.events.push(json!({"e": "followprobe", "route": route, "topic": topic, "lim": lim,
+            "last": last.as_deref().map(idref).unwrap_or(json!(-2)), "via": self.via(),
             "ctx": idref(&ctx), "res": res, "appended": appended, "status": r["status"]}));
     }
 
